@@ -156,6 +156,10 @@ func (vm *VM) builtin(fr *frame, name string, args []Value, cc *ssa.CallCommon) 
 		d := args[0].(Slice)
 		et := cc.Args[0].Type().Underlying().(*types.Slice).Elem()
 		es := sizeof(et)
+		d = vm.materialise(d, es)
+		if s2, ok := args[1].(Slice); ok {
+			args[1] = vm.materialise(s2, es)
+		}
 		var sobj *Obj
 		var soff, sn int
 		switch s := args[1].(type) {
@@ -208,6 +212,7 @@ func (vm *VM) builtin(fr *frame, name string, args []Value, cc *ssa.CallCommon) 
 		switch x := args[0].(type) {
 		case Slice:
 			es := sizeof(cc.Args[0].Type().Underlying().(*types.Slice).Elem())
+			x = vm.materialise(x, es)
 			if x.len > 0 {
 				if x.obj.ro {
 					panic(pathEnd{"rowrite", "clear() of write-protected object " + x.obj.label})
@@ -595,4 +600,35 @@ func (vm *VM) copyLazy(d, s Slice, es int) Value {
 		vm.copyBytes(d.obj, d.off, s.obj, s.off, n*es)
 	}
 	return ts.BV(64, uint64(n))
+}
+
+func init() {
+	intrinsics[vsymPath+".FrozenCopy"] = func(vm *VM, fr *frame, args []Value, cc *ssa.CallCommon) Value {
+		s := vm.materialise(args[0].(Slice), 1)
+		o := vm.newObj(s.len, "caller-buffer")
+		if s.len > 0 {
+			vm.copyBytes(o, 0, s.obj, s.off, s.len)
+		}
+		o.ro = true
+		return Slice{obj: o, len: s.len, cap: s.len}
+	}
+	intrinsics[vsymPath+".Thaw"] = func(vm *VM, fr *frame, args []Value, cc *ssa.CallCommon) Value {
+		if s := args[0].(Slice); s.obj != nil {
+			s.obj.ro = false
+		}
+		return nil
+	}
+}
+
+// materialise turns a lazily sized buffer into an ordinary slice by enumerating its feasible lengths.
+func (vm *VM) materialise(s Slice, es int) Slice {
+	if !s.lazy {
+		if s.symLen != nil {
+			unsupported("operation on a length-only slice")
+		}
+		return s
+	}
+	n := vm.concreteInt(s.symLen)
+	vm.ensure(s.obj, s.off+n*es)
+	return Slice{obj: s.obj, off: s.off, len: n, cap: n}
 }
